@@ -19,13 +19,21 @@ func refCNoDotDot(p string) bool {
 	return true
 }
 
+// vcShortFirstString: every byte string of 0..n bytes, shortest lengths explored first (the engine takes choice 0
+// first and then the highest pending alternative), so that a change that makes the code under test fork heavily per
+// byte cannot exhaust the budget on the long strings before the short hostile spellings ("..") are reached.
+func vcShortFirstString(n int) string {
+	c := verifNondetChoice(n + 1)
+	return verifNondetStringN((n + 1 - c) % (n + 1))
+}
+
 // VerifLemma_C13A_ValidatePrefixPath: the two validators every leaf bucket entry point calls first
 // (ValidatePrefix: Walk/DeleteAll; ValidatePath: Get/Stat/Put/Delete). Accepted => the result is relative, has no
 // ".." component and is normalized (so joining it onto a root cannot leave the root); the verdict and result are
 // exactly NormalizeAndValidate's (ValidatePath additionally rejects the root ".").
 // (Added after seeded change C13-r2m1: a "fast path" in ValidatePrefix returning separator-free prefixes unvalidated.)
 func VerifLemma_C13A_ValidatePrefixPath() {
-	s := verifNondetString(verifParam("N"))
+	s := vcShortFirstString(verifParam("N"))
 	verifCover("input")
 	p, err := ValidatePrefix(s)
 	if err == nil {
